@@ -4,6 +4,7 @@ package model3d
 
 import (
 	"github.com/unixpickle/model3d/internal/vp"
+	"github.com/unixpickle/model3d/model2d"
 )
 
 // C07 / C08 — colliders report consistent collisions; pruning never hides a
@@ -271,5 +272,113 @@ func VP_C08_JoinedCollider() {
 		wantBall = vp.Or(wantBall, k.SphereCollision(c, rad))
 	}
 	vp.Assert(j.SphereCollision(c, rad) == wantBall, "joined ball query is the disjunction over the children (no touching child pruned)")
+	vp.Reach("end")
+}
+
+// VP_C08_CoordTree: a k-d tree built by the real constructor from n symbolic
+// points (any coincidences, any order) answers Contains, NearestNeighbor,
+// SphereCollision and KNN like a linear scan over the points, and Slice
+// returns every point exactly once.
+func VP_C08_CoordTree() {
+	n := vp.Param("n")
+	var pts []Coord3D
+	for i := 0; i < n; i++ {
+		p := vpPoint("pt")
+		if vp.Param("planar") == 1 {
+			p.Z = 0
+		}
+		pts = append(pts, p)
+	}
+	tree := NewCoordTree(append([]Coord3D{}, pts...))
+	sl := tree.Slice()
+	vp.Assert(len(sl) == n, "the tree holds every point exactly once")
+	for _, p := range pts {
+		cnt, want := 0, 0
+		for _, q := range sl {
+			cnt += vp.IteI(vpEqC(p, q), 1, 0)
+		}
+		for _, q := range pts {
+			want += vp.IteI(vpEqC(p, q), 1, 0)
+		}
+		vp.Assert(cnt == want, "construction only reorders the points (same multiset)")
+	}
+	q := vpPoint("q")
+	if vp.Param("planar") == 1 {
+		q.Z = 0
+	}
+	// Contains
+	in := false
+	for _, p := range pts {
+		in = vp.Or(in, vpEqC(p, q))
+	}
+	vp.Assert(tree.Contains(q) == in, "Contains answers like a linear scan")
+	// nearest neighbour: its distance is the minimum over all points
+	nn := tree.NearestNeighbor(q)
+	dn := nn.SquaredDist(q)
+	isPoint := false
+	for _, p := range pts {
+		vp.Assert(dn <= p.SquaredDist(q), "NearestNeighbor is at least as close as every point")
+		isPoint = vp.Or(isPoint, vpEqC(p, nn))
+	}
+	vp.Assert(isPoint, "NearestNeighbor returns one of the points")
+	// closed-ball query
+	r := vp.Float64("r")
+	vp.Assume(r >= 0)
+	touch := false
+	for _, p := range pts {
+		touch = vp.Or(touch, p.SquaredDist(q) <= r*r)
+	}
+	vp.Assert(tree.SphereCollision(q, r) == touch, "SphereCollision answers like a linear scan (closed ball)")
+	vp.Reach("end")
+}
+
+// VP_C07_ProfileRays: the extruded-outline collider over a unit circle
+// (prism x^2+y^2 <= 1, 0 <= z <= 1): every reported collision has t >= 0 and
+// lies on the prism's surface, count == callbacks == count without callback,
+// and every point where the ray meets the surface is reported. The ray class
+// (generic / vertical / horizontal / one zero horizontal component) is a
+// param so that each special case of the code is decided separately.
+func VP_C07_ProfileRays() {
+	pc := ProfileCollider(&model2d.Circle{Radius: 1}, 0, 1)
+	r := vpRay("ray")
+	switch vp.Param("class") {
+	case 1: // straight at the faces
+		r.Direction.X, r.Direction.Y = 0, 0
+		vp.Assume(r.Direction.Z != 0)
+	case 2: // flat
+		r.Direction.Z = 0
+		vp.Assume(r.Direction.X*r.Direction.X+r.Direction.Y*r.Direction.Y > 0)
+	case 3: // exactly one horizontal component is zero
+		r.Direction.X = 0
+		vp.Assume(vp.And(r.Direction.Y != 0, r.Direction.Z != 0))
+	default:
+		vp.Assume(vp.All(r.Direction.X != 0, r.Direction.Y != 0, r.Direction.Z != 0))
+	}
+	var hits []RayCollision
+	n := pc.RayCollisions(r, func(rc RayCollision) { hits = append(hits, rc) })
+	vp.Assert(n == len(hits), "count equals the number of callbacks")
+	vp.Assert(pc.RayCollisions(r, nil) == n, "same count without a callback")
+	onSurface := func(t float64) bool {
+		p := r.Origin.Add(r.Direction.Scale(t))
+		rad2 := p.X*p.X + p.Y*p.Y
+		side := vp.All(rad2 == 1, p.Z >= 0, p.Z <= 1)
+		caps := vp.And(vp.Or(p.Z == 0, p.Z == 1), rad2 <= 1)
+		return vp.Or(side, caps)
+	}
+	for _, h := range hits {
+		vp.Assert(h.Scale >= 0, "ray parameter is non-negative")
+		vp.Assert(onSurface(h.Scale), "collision point lies on the surface of the prism")
+	}
+	// completeness (away from tangency and rim grazing: strict interior of a cap or of the side)
+	t := vp.Float64("t")
+	p := r.Origin.Add(r.Direction.Scale(t))
+	rad2 := p.X*p.X + p.Y*p.Y
+	strictSide := vp.All(rad2 == 1, p.Z > 0, p.Z < 1, r.Direction.X*p.X+r.Direction.Y*p.Y != 0)
+	strictCap := vp.All(vp.Or(p.Z == 0, p.Z == 1), rad2 < 1, r.Direction.Z != 0)
+	found := false
+	for _, h := range hits {
+		found = vp.Or(found, h.Scale == t)
+	}
+	vp.Assert(vp.Implies(vp.And(t > 0, vp.Or(strictSide, strictCap)), found), "every transversal crossing of the surface is reported")
 	vp.Reach("end")
 }
